@@ -56,7 +56,13 @@ def _locate_anchor(body, blines, anchor, nth):
         starts.append(starts[-1] + len(l) + 1)
     line_of = lambda off: bisect.bisect_right(starts, off) - 1
     n = len(at)
-    hits = [k for k in range(len(texts) - n + 1) if texts[k] == at[0] and texts[k:k + n] == at]
+    # only whole statements: the match must begin where a statement or block begins (fragments such as `);` are matched
+    # by exact line only)
+    def at_start(k):
+        return k == 0 or texts[k - 1] in (';', '{', '}', '=>') or texts[k - 1] == ','
+    if at[0] in (')', ']', '}', ';', ',', '.'):
+        return None
+    hits = [k for k in range(len(texts) - n + 1) if texts[k] == at[0] and texts[k:k + n] == at and at_start(k)]
     if nth < len(hits):
         k = hits[nth]
         return line_of(bt[k].start), line_of(bt[k + n - 1].start), 're-wrapped statement matched token-wise'
@@ -64,7 +70,7 @@ def _locate_anchor(body, blines, anchor, nth):
         return None
     cand = []
     for k in range(len(texts)):
-        if texts[k] != at[0]:
+        if texts[k] != at[0] or not at_start(k):
             continue
         best = None
         for m in range(max(1, n - 4), n + 5):
@@ -487,6 +493,9 @@ class Unit:
                 self.relaxed.append('%s: hint anchor %r #%d %s' % (key, anchor, nth, note))
             idxs = None
             i = first_line if where_ == 'before' else last_line
+            if where_ == 'before' and blines[i].strip().startswith('else'):
+                self.relaxed.append('%s: hint anchor %r #%d now continues an if/else chain, hint skipped' % (key, anchor, nth))
+                continue
             hid = '%s#%s%d:%s' % (key, where_, nth, anchor[:40])
             if hid in self.disabled_hints:
                 self.relaxed.append('%s: hint %s %d %r dropped (it no longer type-checks in the changed code)' % (key, where_, nth, anchor[:40]))
